@@ -149,12 +149,15 @@ impl<T, N: ArrayLength> Iterator for GenericArrayIter<T, N> {
     fn nth(&mut self, n: usize) -> Option<T> {
         // First consume values prior to the nth.
         let next_index = self.index + cmp::min(n, self.len());
+        let skipped = self.index..next_index;
+
+        // Update the index first, so that the skipped values are not dropped
+        // again by `Drop` if one of their destructors panics.
+        self.index = next_index;
 
         unsafe {
-            ptr::drop_in_place(self.array.get_unchecked_mut(self.index..next_index));
+            ptr::drop_in_place(self.array.get_unchecked_mut(skipped));
         }
-
-        self.index = next_index;
 
         self.next()
     }
@@ -209,12 +212,14 @@ impl<T, N: ArrayLength> DoubleEndedIterator for GenericArrayIter<T, N> {
 
     fn nth_back(&mut self, n: usize) -> Option<T> {
         let next_back = self.index_back - cmp::min(n, self.len());
+        let skipped = next_back..self.index_back;
+
+        // Update the index first, see `nth`
+        self.index_back = next_back;
 
         unsafe {
-            ptr::drop_in_place(self.array.get_unchecked_mut(next_back..self.index_back));
+            ptr::drop_in_place(self.array.get_unchecked_mut(skipped));
         }
-
-        self.index_back = next_back;
 
         self.next_back()
     }
